@@ -601,7 +601,6 @@ class TorrentFileHybrid(MetaFile, ProgMixin):
         """
         super().__init__(**kwargs)
         logger.debug("Assembling bittorrent Hybrid file")
-        self.name = os.path.basename(self.path)
         self.hashes = []
         self.piece_layers = {}
         self.pieces = []
@@ -707,7 +706,6 @@ class TorrentAssembler(MetaFile, ProgMixin):
         """
         super().__init__(**kwargs)
         logger.debug("Assembling bittorrent Hybrid file")
-        self.name = os.path.basename(self.path)
         self.hashes = []
         self.piece_layers = {}
         self.pieces = bytearray()
